@@ -275,6 +275,20 @@ def alter(bundle, alteration, sec_type=11):
     elif kind == 'res-none':
         # the result list of one target left in place but emptied
         out = edit_asb(out, sec_type, lambda asb: asb['results'].__setitem__(alteration[1] % len(asb['results']), []))
+    elif kind == 'recipient-extra':
+        # one more recipient in every COSE_Encrypt result, naming a key-encryption key the receiver does not hold, in
+        # front of or behind the genuine one (the recipient list is not authenticated: any one recipient that works is
+        # enough).  Results of other kinds are left as they are.
+        def func(asb):
+            for results in asb['results']:
+                rid, enc = results[0]
+                if rid != rc.TAG_ENC:
+                    continue
+                msg = rc._py(cb.parse(bytes(enc)))
+                bogus = [b'', {rc.HDR_ALG: -5, rc.HDR_KID: b'k-nobody'}, bytes(range(40))]
+                msg[3] = ([bogus] + list(msg[3])) if alteration[2] % 2 == 0 else (list(msg[3]) + [bogus])
+                results[0] = [rid, cb.enc(msg)]
+        out = edit_asb(out, sec_type, func)
     elif kind in ('res-tag', 'res-protected', 'res-kid', 'res-iv'):
         out = edit_asb(out, sec_type, lambda asb: flip_in_result(asb, alteration[1], kind[4:], alteration[2]))
     else:
